@@ -55,6 +55,8 @@ impl MetricBucket {
     }
 
     pub fn add_count(&self, event: MetricEvent, count: u64) {
+        #[cfg(flea1lt_sentinel_rust_verif)]
+        crate::verif::sched::point("mb:add");
         self.counter[event].fetch_add(count, Ordering::SeqCst);
     }
 
